@@ -64,10 +64,11 @@ def at(x, idx):
     """position idx of a collection-valued result (parts that do not depend on a collection argument stay single)"""
     if isinstance(x, (list, tuple)):
         return [at(y, idx) for y in x]
+    # a part that depends only on arguments with fewer collection axes has fewer axes itself: aligned from the right
     if kind_of(x) == "obj":
-        return x[idx] if x.free_indices > 0 else x
+        return x[idx[len(idx) - x.free_indices:]] if x.free_indices > 0 else x
     a = np.asarray(x)
-    return a[idx] if a.ndim > 0 else a
+    return a[idx[len(idx) - a.ndim:]] if a.ndim > 0 else a
 
 
 def family(x):
@@ -249,42 +250,85 @@ def ops(rng):
     add("segment.props3", lambda s: (s.midpoint, s.length), lambda: (seg(3),))
     add("triangle.contains", lambda t, p: t.contains(p), lambda: (tri(), pt2(1.0)))
     add("polygon.area", lambda t: t.area, lambda: (tri(),))
+    def poly3():
+        # a planar quadrilateral in the plane z = a x + b y + c (not through the origin)
+        a, b, c = rng.randint(-2, 2), rng.randint(-2, 2), rng.randint(1, 4)
+        x0, y0 = rng.randint(-3, 3), rng.randint(-3, 3)
+        w, h = rng.randint(1, 4), rng.randint(1, 4)
+        vs = [(x0, y0), (x0 + w, y0), (x0 + w, y0 + h), (x0, y0 + h)]
+        lift = lambda x, y: g.Point(float(x), float(y), float(a * x + b * y + c))
+        pt = rng.choice([(x0 + w / 2, y0 + h / 2), (x0, y0), (x0 + w + 1, y0), (x0 + w / 2, y0)])
+        return g.Polygon(*[lift(x, y) for x, y in vs]), lift(*pt)
+
+    def plane_pair_or_cone():
+        if rng.random() < 0.5:
+            return g.Cone(g.Point(float(rng.randint(-2, 2)), float(rng.randint(-2, 2)), 0.0), g.Point(float(rng.randint(-2, 2)), float(rng.randint(-2, 2)), 2.0), 1.0)
+        while True:
+            e, f = plane3(), plane3()
+            if np.linalg.matrix_rank(np.stack([e.array, f.array])) == 2:
+                return g.Quadric.from_planes(e, f)
+
+    # reading .area first must not change what contains answers (and both agree with the single polygons)
+    add("polygon3.area-then-contains", lambda t, p: (t.area, t.contains(p)), poly3, nomix=True)
+    add("polygon3.contains", lambda t, p: t.contains(p), poly3, nomix=True)
+    add("quadric3.degenerate-intersect", lambda q, l: q.intersect(l), lambda: (plane_pair_or_cone(), line3()), tol=1e-6, nomix=True)
+    add("conic.dual-roundtrip", lambda q: (q.dual.dual, q.dual.is_dual), lambda: (circle_and_point()[0],))
     add("join-pp", lambda p, q: g.join(p, q), lambda: (lambda p: (p, g.Point(np.asarray(p.normalized_array) + np.array([1.0, rat(rng), 0.0]))))(pt2(1.0)))
     add("meet-ll", lambda l, m: g.meet(l, m), lambda: (lambda l: (l, g.Line(np.asarray(l.array) + np.array([1.0, -1.0, rat(rng)]))))(line2()))
     return T
 
 
-SHAPES = ["k", "1", "k1", "1k", "mixed"]
+SHAPES = ["k", "1", "k1", "1k", "mixed", "mk"]
+PERPENDICULAR_FAMILY = ("dist-pl2", "dist-pl3", "dist-pe3", "line.perpendicular", "line.project", "line.mirror", "line3.project",
+                        "plane.project", "plane.perpendicular", "plane.mirror")
 
 
-def run(ctx, n, prefix="C04"):
-    """n cases per call; every case = one operation, one shape pattern"""
+def run(ctx, n, prefix="C04", only=None):
+    """n cases per call; every case = one operation, one shape pattern.  Patterns: all arguments of shape (k,), (1,), (k,1),
+    (1,k); "mixed" = one argument is a single object; "mk" = one argument has shape (m,k), the others (k,) (collections
+    with different numbers of collection axes, aligned from the right)"""
     rng = ctx.rng
-    table = ops(rng)
+    table = [t for t in ops(rng) if only is None or t[0] in only]
     for _ in range(n):
         name, f, gen, kw = table[rng.randrange(len(table))]
         pattern = rng.choice(SHAPES)
         k = 1 if pattern == "1" else rng.randint(2, 3)
+        m = rng.randint(2, 3)
         try:
-            tuples = [gen() for _ in range(k)]
+            tuples = [gen() for _ in range(k * (m if pattern == "mk" else 1))]
         except Exception:  # noqa: BLE001
             continue
-        shape = {"k": (k,), "1": (1,), "k1": (k, 1), "1k": (1, k), "mixed": (k,)}[pattern]
         nargs = len(tuples[0])
-        if pattern == "mixed" and (nargs < 2 or kw.get("nomix")):
+        if pattern in ("mixed", "mk") and (nargs < 2 or kw.get("nomix")):
             pattern = "k"
-        single_pos = rng.randrange(nargs) if pattern == "mixed" else None
+            tuples = tuples[:k]
+        shape = {"k": (k,), "1": (1,), "k1": (k, 1), "1k": (1, k), "mixed": (k,), "mk": (m, k)}[pattern]
+        single_pos = rng.randrange(nargs) if pattern in ("mixed", "mk") else None
         try:
             colls = []
-            for j in range(nargs):
-                if j == single_pos:
-                    colls.append(tuples[0][j])
-                    for t in tuples[1:]:
-                        t_l = list(t)
-                        t_l[j] = tuples[0][j]
-                        tuples[tuples.index(t)] = tuple(t_l)
-                else:
-                    colls.append(stack_objs([t[j] for t in tuples], shape))
+            if pattern == "mk":
+                # argument single_pos: all m*k objects; every other argument: the k objects of the first row
+                grid = []
+                for i in range(m):
+                    for j in range(k):
+                        grid.append(tuple(tuples[i * k + j][a] if a == single_pos else tuples[j][a] for a in range(nargs)))
+                for a in range(nargs):
+                    if a == single_pos:
+                        colls.append(stack_objs([t[a] for t in tuples], (m, k)))
+                    else:
+                        colls.append(stack_objs([tuples[j][a] for j in range(k)], (k,)))
+                tuples = grid
+                single_pos = f"(m,k) argument {single_pos}"
+            else:
+                for j in range(nargs):
+                    if j == single_pos:
+                        colls.append(tuples[0][j])
+                        for t in tuples[1:]:
+                            t_l = list(t)
+                            t_l[j] = tuples[0][j]
+                            tuples[tuples.index(t)] = tuple(t_l)
+                    else:
+                        colls.append(stack_objs([t[j] for t in tuples], shape))
         except Exception as e:  # noqa: BLE001
             ctx.notes.append(f"colllib: could not stack for {name}: {type(e).__name__}: {e}") if len(ctx.notes) < 20 else None
             continue
@@ -299,6 +343,11 @@ def run(ctx, n, prefix="C04"):
             # a different error class; anything else is outside this stream (C02 covers the masks)
             continue
         if res[0] != "ok":
+            if pattern == "mk" and name in PERPENDICULAR_FAMILY:
+                # recorded finding: the mask-based construction of perpendiculars does not broadcast collections with
+                # different numbers of collection axes
+                ctx.disagree(f"{prefix}:coll:perpendicular-family:mk:raises", desc, "values of the single calls", f"{res[1]}: {str(res[2])[:200]}", replay=[desc])
+                continue
             ctx.disagree(f"{prefix}:coll:{name}:{pattern}:raises:{res[1]}", desc, "values of the single calls", f"{res[1]}: {str(res[2])[:200]}", replay=[desc])
             continue
         idxs = list(itertools.product(*[range(s) for s in shape]))
